@@ -71,6 +71,10 @@ def exc_categories(exc: BaseException) -> List[str]:
 
 def exc_category(exc: BaseException) -> str:
     import struct as _struct
+    _doc = exc_categories(exc)
+    if _doc:
+        # e.g. an exception class deriving from both ValueError and struct.error is a documented ValueError
+        return _doc[0]
     from spacepackets.ecss.tc import InvalidTcCrc16
     from spacepackets.ecss.tm import InvalidTmCrc16
     from spacepackets.cfdp.exceptions import InvalidCrc, TlvTypeMissmatch
